@@ -293,6 +293,8 @@ def write_sgz(path, cube, rate, bs, ilines=None, xlines=None, t0_ms=0, dt_us=400
     arrays = dict(arrays or {})
     consts, dups = dict(consts or {}), dict(dups or {})
     is2d = cube.ndim == 2
+    if tuple(version) + (1 if released else 0,) <= (0, 1, 6, 1) and not is2d:
+        dt_us = dt_us // 1000          # files up to 0.1.6 store the sample interval in milliseconds
     bsh = tuple(bs[1:]) if is2d else tuple(bs)
     P = pad_array(cube, bsh, pad_mode)
     blocks = []
